@@ -5,6 +5,8 @@ import (
 	"encoding/binary"
 	"fmt"
 	"strings"
+	"sync"
+	"sync/atomic"
 	"testing"
 
 	"github.com/postalsys/muti-metroo/internal/crypto"
@@ -205,5 +207,70 @@ func TestVP_C01_Session(t *testing.T) {
 			cl = append(cl, k)
 		}
 		st.Case(strings.Join(ops, "; "), nontrivial, cl...)
+	})
+}
+
+// TestVP_C01_ConcurrentReplay: copies of messages delivered to one endpoint from several
+// goroutines at once (a tunnel's frames can be dispatched in parallel, and a duplicate can
+// arrive over another path). Per case a run of genuine messages; every message is handed to
+// Decrypt by 2-6 goroutines released together. Exactly one copy of each message may be
+// accepted (with the plaintext that was sealed), and a message older than one already
+// accepted may never be.
+func TestVP_C01_ConcurrentReplay(t *testing.T) {
+	st := vp.NewStats("C01", "concurrent-replay", "real SessionKey pair; 20-120 messages from one end, each delivered to the other end by 2-6 goroutines released by a spin barrier, optionally with the previous message's copies mixed in; exactly one copy of a fresh message is accepted and none of an old one; non-trivial = always")
+	defer st.Flush()
+	rapid.Check(t, func(t *rapid.T) {
+		pair := vpC01Pair(t)
+		from := rapid.IntRange(0, 1).Draw(t, "sender")
+		snd, rcv := pair[from], pair[1-from]
+		n := rapid.IntRange(20, 120).Draw(t, "messages")
+		g := rapid.IntRange(2, 6).Draw(t, "copies")
+		mixOld := rapid.Bool().Draw(t, "mixPrevious")
+		var prev []byte
+		for i := 0; i < n; i++ {
+			pt := []byte(fmt.Sprintf("message %d of the run", i))
+			ct, err := snd.Encrypt(pt)
+			if err != nil {
+				t.Fatalf("harness: encrypt: %v", err)
+			}
+			var ready, okNew, okOld atomic.Int64
+			var wg sync.WaitGroup
+			total := g
+			if mixOld && prev != nil {
+				total = 2 * g
+			}
+			for k := 0; k < total; k++ {
+				wg.Add(1)
+				go func(k int) {
+					defer wg.Done()
+					msg, fresh := ct, true
+					if k >= g {
+						msg, fresh = prev, false
+					}
+					msg = append([]byte(nil), msg...)
+					ready.Add(1)
+					for ready.Load() < int64(total) {
+					}
+					out, err := rcv.Decrypt(msg)
+					if err != nil {
+						return
+					}
+					if fresh && bytes.Equal(out, pt) {
+						okNew.Add(1)
+					} else {
+						okOld.Add(1)
+					}
+				}(k)
+			}
+			wg.Wait()
+			if okOld.Load() != 0 {
+				t.Fatalf("VPFAIL C01 message %d: %d copies of the previous, already accepted message were accepted again while the new one was being delivered", i, okOld.Load())
+			}
+			if okNew.Load() != 1 {
+				t.Fatalf("VPFAIL C01 message %d: %d of %d copies delivered at the same moment were accepted (exactly one may be)", i, okNew.Load(), g)
+			}
+			prev = ct
+		}
+		st.Case(fmt.Sprintf("sender=%d messages=%d copies=%d mixPrevious=%v", from, n, g, mixOld), true, fmt.Sprintf("copies-%d", g))
 	})
 }
